@@ -4,6 +4,677 @@ From KV Require Import Common.Verdict Model.C19.
 Import ListNotations.
 Open Scope N_scope.
 
+Ltac Zify.zify_post_hook ::= Z.div_mod_to_equations.
+
+(* ------------------------------------------------------------------ varints *)
+Lemma dec_enc_varint_f : forall fuel n r,
+  n < 2 * 128 ^ N.of_nat fuel ->
+  dec_varint_f fuel (enc_varint_f fuel n ++ r) = Some (n, r).
+Proof.
+  induction fuel as [|f IH]; intros n r Hn.
+  - cbn [N.of_nat N.pow] in Hn. cbn [enc_varint_f dec_varint_f app].
+    assert (E : n mod 128 = n) by (apply N.mod_small; lia). rewrite E.
+    assert (H1 : (n <? 128) = true) by (apply N.ltb_lt; lia).
+    assert (H2 : (n <? 2) = true) by (apply N.ltb_lt; lia).
+    now rewrite H1, H2.
+  - rewrite Nat2N.inj_succ, N.pow_succ_r' in Hn.
+    cbn [enc_varint_f]. destruct (n <? 128) eqn:E.
+    + cbn [app dec_varint_f]. now rewrite E.
+    + apply N.ltb_ge in E. cbn [app dec_varint_f].
+      assert (H1 : (n mod 128 + 128 <? 128) = false) by (apply N.ltb_ge; apply N.le_add_l).
+      rewrite H1. rewrite IH.
+      * f_equal. f_equal. clear IH Hn. pose proof (N.div_mod n 128 ltac:(lia)). lia.
+      * clear IH H1. revert Hn. generalize (128 ^ N.of_nat f). intros P Hn.
+        apply N.div_lt_upper_bound; lia.
+Qed.
+
+Lemma dec_enc_varint : forall n r, n < two64 -> dec_varint (enc_varint n ++ r) = Some (n, r).
+Proof.
+  intros n r H. unfold dec_varint, enc_varint. apply dec_enc_varint_f.
+  unfold two64 in H. change (2 * 128 ^ N.of_nat 9) with 18446744073709551616. exact H.
+Qed.
+
+Lemma enc_varint_f_nonempty : forall fuel n, enc_varint_f fuel n <> [].
+Proof. destruct fuel; intros n; cbn [enc_varint_f]; [|destruct (n <? 128)]; discriminate. Qed.
+
+Lemma enc_varint_len : forall n, (1 <= length (enc_varint n))%nat.
+Proof.
+  intros n. unfold enc_varint. pose proof (enc_varint_f_nonempty 9 n).
+  destruct (enc_varint_f 9 n); [congruence|cbn; lia].
+Qed.
+
+(* ------------------------------------------------------------------ tokens *)
+Definition wf_tok (t : token) : Prop :=
+  1 <= fst t <= max_num_msg /\
+  match snd t with
+  | WVar v => v < two64
+  | WF64 l => length l = 8%nat
+  | WF32 l => length l = 4%nat
+  | WBytes l => lenN l < two64
+  end.
+
+Lemma dec_tag_enc : forall num wt r,
+  1 <= num <= max_num_msg -> wt < 8 ->
+  dec_tag max_num_msg (enc_tag num wt ++ r) = Some (num, wt, r).
+Proof.
+  intros num wt r [H1 H2] Hw. unfold dec_tag, enc_tag, max_num_msg in *.
+  rewrite dec_enc_varint by (unfold two64; lia).
+  assert (E1 : (num * 8 + wt) / 8 = num).
+  { rewrite N.div_add_l by lia. rewrite (N.div_small wt 8) by assumption. lia. }
+  assert (E2 : (num * 8 + wt) mod 8 = wt).
+  { rewrite N.add_comm, N.mod_add by lia. apply N.mod_small; assumption. }
+  rewrite E1, E2.
+  assert (B1 : (1 <=? num) = true) by (apply N.leb_le; lia).
+  assert (B2 : (num <=? 536870911) = true) by (apply N.leb_le; lia).
+  now rewrite B1, B2.
+Qed.
+
+Lemma split_at_app : forall l r, split_at (lenN l) (l ++ r) = Some (l, r).
+Proof.
+  intros l r. unfold split_at, lenN.
+  assert (E : (N.of_nat (length l) <=? N.of_nat (length (l ++ r))) = true).
+  { apply N.leb_le. rewrite app_length. lia. }
+  rewrite E, Nat2N.id. f_equal. f_equal.
+  - rewrite firstn_app, Nat.sub_diag, firstn_all. cbn. now rewrite app_nil_r.
+  - rewrite skipn_app, Nat.sub_diag, skipn_all. reflexivity.
+Qed.
+
+Lemma split_at_fixed : forall (k : nat) l r, length l = k -> split_at (N.of_nat k) (l ++ r) = Some (l, r).
+Proof. intros k l r <-. apply split_at_app. Qed.
+
+Lemma tokenize_f_step : forall f b l,
+  tokenize_f (S f) (b :: l) =
+  match dec_tag max_num_msg (b :: l) with
+  | None => None
+  | Some (num, wt, r) =>
+      if wt =? 0 then
+        match dec_varint r with
+        | Some (v, r') =>
+            match tokenize_f f r' with Some ts => Some ((num, WVar v) :: ts) | None => None end
+        | None => None
+        end
+      else if wt =? 1 then
+        match split_at 8 r with
+        | Some (b, r') =>
+            match tokenize_f f r' with Some ts => Some ((num, WF64 b) :: ts) | None => None end
+        | None => None
+        end
+      else if wt =? 2 then
+        match dec_varint r with
+        | Some (n, r1) =>
+            match split_at n r1 with
+            | Some (b, r') =>
+                match tokenize_f f r' with Some ts => Some ((num, WBytes b) :: ts) | None => None end
+            | None => None
+            end
+        | None => None
+        end
+      else if wt =? 3 then
+        match skip_group (S (length r)) [num] r with
+        | Some r' => tokenize_f f r'
+        | None => None
+        end
+      else if wt =? 5 then
+        match split_at 4 r with
+        | Some (b, r') =>
+            match tokenize_f f r' with Some ts => Some ((num, WF32 b) :: ts) | None => None end
+        | None => None
+        end
+      else None
+  end.
+Proof. reflexivity. Qed.
+
+Lemma ser_tok_len : forall t, (1 <= length (ser_tok t))%nat.
+Proof.
+  intros [num v]. unfold ser_tok, enc_tag. cbn [fst snd].
+  destruct v; rewrite app_length; pose proof (enc_varint_len (num * 8 + 0));
+    pose proof (enc_varint_len (num * 8 + 1)); pose proof (enc_varint_len (num * 8 + 2));
+    pose proof (enc_varint_len (num * 8 + 5)); lia.
+Qed.
+
+Lemma tokenize_f_ser : forall ts fuel,
+  Forall wf_tok ts -> (length (ser ts) <= fuel)%nat -> tokenize_f fuel (ser ts) = Some ts.
+Proof.
+  induction ts as [|t ts IH]; intros fuel Hwf Hlen.
+  - destruct fuel; reflexivity.
+  - inversion Hwf as [|? ? Ht Hts]; subst.
+    change (ser (t :: ts)) with (ser_tok t ++ ser ts) in *.
+    rewrite app_length in Hlen. pose proof (ser_tok_len t) as Hl.
+    destruct fuel as [|f]; [lia|].
+    assert (IH' : tokenize_f f (ser ts) = Some ts) by (apply IH; [assumption|lia]).
+    destruct t as [num v]. destruct Ht as [Hnum Hv]. cbn [fst snd] in *.
+    destruct (ser_tok (num, v) ++ ser ts) as [|b l] eqn:E.
+    { apply (f_equal (@length N)) in E. rewrite app_length in E. cbn in E. lia. }
+    rewrite tokenize_f_step. rewrite <- E. unfold ser_tok. cbn [fst snd].
+    destruct v as [x|x|x|x]; rewrite <- app_assoc; rewrite dec_tag_enc by (assumption || reflexivity).
+    + cbn [N.eqb Pos.eqb]. rewrite dec_enc_varint by assumption. now rewrite IH'.
+    + cbn [N.eqb Pos.eqb]. change 8 with (N.of_nat 8).
+      rewrite split_at_fixed by assumption. now rewrite IH'.
+    + cbn [N.eqb Pos.eqb]. change 4 with (N.of_nat 4).
+      rewrite split_at_fixed by assumption. now rewrite IH'.
+    + cbn [N.eqb Pos.eqb]. rewrite <- app_assoc. rewrite dec_enc_varint by assumption.
+      rewrite split_at_app. now rewrite IH'.
+Qed.
+
+Lemma tokenize_ser : forall ts, Forall wf_tok ts -> tokenize (ser ts) = Some ts.
+Proof. intros ts H. unfold tokenize. apply tokenize_f_ser; [assumption|lia]. Qed.
+
+(* ------------------------------------------------------------------ big-endian integers *)
+(* value of a byte list that extends [acc] on the left by the digits of n *)
+Lemma be_bytes_f_val : forall fuel n acc,
+  n < 2 ^ N.of_nat fuel ->
+  be_val (be_bytes_f fuel n acc) = n * 256 ^ lenN acc + be_val acc.
+Proof.
+  induction fuel as [|f IH]; intros n acc Hn.
+  - cbn [N.of_nat N.pow] in Hn. assert (n = 0) by lia. subst. cbn [be_bytes_f]. lia.
+  - cbn [be_bytes_f]. destruct (n =? 0) eqn:E.
+    + apply N.eqb_eq in E. subst. lia.
+    + apply N.eqb_neq in E. rewrite IH.
+      * unfold lenN. cbn [length]. rewrite Nat2N.inj_succ, N.pow_succ_r'.
+        unfold be_val at 1. cbn [fold_left].
+        assert (G : forall l a, fold_left (fun acc b => acc * 256 + b) l a =
+                                a * 256 ^ N.of_nat (length l) + fold_left (fun acc b => acc * 256 + b) l 0).
+        { clear. induction l as [|x l IHl]; intros a.
+          - cbn. lia.
+          - cbn [fold_left length]. rewrite Nat2N.inj_succ, N.pow_succ_r'.
+            rewrite IHl. rewrite (IHl (0 * 256 + x)). lia. }
+        rewrite (G acc (0 * 256 + n mod 256)). fold (be_val acc).
+        pose proof (N.div_mod n 256 ltac:(lia)) as D.
+        set (P := 256 ^ N.of_nat (length acc)) in *. nia.
+      * rewrite Nat2N.inj_succ, N.pow_succ_r' in Hn.
+        revert Hn. generalize (2 ^ N.of_nat f). intros P Hn.
+        apply N.div_lt_upper_bound; lia.
+Qed.
+
+Lemma be_val_be_bytes : forall n, be_val (be_bytes n) = n.
+Proof.
+  intros n. unfold be_bytes. rewrite be_bytes_f_val.
+  - unfold lenN. cbn. lia.
+  - rewrite N2Nat.id. destruct n as [|p]; [cbn; lia|]. apply N.size_gt.
+Qed.
+
+(* ------------------------------------------------------------------ field extraction lemmas *)
+Lemma vars_of_app : forall k a b, vars_of k (a ++ b) = vars_of k a ++ vars_of k b.
+Proof. intros. unfold vars_of. apply flat_map_app. Qed.
+Lemma bytes_of_app : forall k a b, bytes_of k (a ++ b) = bytes_of k a ++ bytes_of k b.
+Proof. intros. unfold bytes_of. apply flat_map_app. Qed.
+
+Lemma of_other : forall k ts, (forall tok, In tok ts -> fst tok <> k) ->
+  vars_of k ts = [] /\ bytes_of k ts = [].
+Proof.
+  induction ts as [|t ts IH]; intros H; [split; reflexivity|].
+  destruct IH as [I1 I2]; [intros tok Hin; apply H; now right|].
+  assert (E : (fst t =? k) = false) by (apply N.eqb_neq, H; now left).
+  unfold vars_of, bytes_of in *. cbn [flat_map]. rewrite E, I1, I2. split; reflexivity.
+Qed.
+
+Lemma glue0_ext : forall parse k t ts ts',
+  vars_of k ts = vars_of k ts' -> bytes_of k ts = bytes_of k ts' ->
+  glue0 parse k t ts = glue0 parse k t ts' /\ pb_ok0 k t ts = pb_ok0 k t ts'.
+Proof.
+  intros parse k t ts ts' Hv Hb.
+  unfold glue0, pb_ok0, last_var, last_bytes. rewrite Hv, Hb. split; reflexivity.
+Qed.
+
+(* ------------------------------------------------------------------ well-formed values *)
+Definition small (l : list N) : Prop := lenN l < two64.
+Definition entry_bytes (e : N * list N) : list N := ser [(1, WVar (fst e)); (2, WBytes (snd e))].
+Fixpoint sorted_keys (m : list (N * list N)) : Prop :=
+  match m with
+  | [] => True
+  | e :: t => (forall e', In e' t -> fst e < fst e') /\ sorted_keys t
+  end.
+
+Section WF.
+  Variable parse : N -> list N -> option (list N).
+  Definition chk_ok (c : bcheck) (b : list N) : Prop := small b /\ check parse c b = Some b.
+  Definition str_ok (b : list N) : Prop := small b /\ utf8_valid b = true.
+  Definition wf_val0 (t : ftype0) (v : fval0) : Prop :=
+    match t, v with
+    | TU32 UFull, VN n => n < two32
+    | TU32 _, VN n => n <= 255
+    | TU64, VN n => n < two64
+    | TBytes c, VB b => chk_ok c b
+    | TString, VB b => str_ok b
+    | TBig, VN n => small (be_bytes n)
+    | TRep c, VL l => Forall (chk_ok c) l
+    | TRepStr, VL l => Forall str_ok l
+    | TMap c, VM m => sorted_keys m /\
+                      Forall (fun e => fst e <= 255 /\ chk_ok c (snd e) /\ small (entry_bytes e)) m
+    | _, _ => False
+    end.
+
+  Lemma check_all_ok : forall c l, Forall (chk_ok c) l -> check_all parse c l = Some l.
+  Proof.
+    induction l as [|b l IH]; intros H; [reflexivity|].
+    inversion H as [|? ? [_ Hb] Hl]; subst. cbn [check_all]. now rewrite Hb, IH.
+  Qed.
+  Lemma check_map_ok : forall c m,
+    Forall (fun e => fst e <= 255 /\ chk_ok c (snd e) /\ small (entry_bytes e)) m ->
+    check_map parse c m = Some m.
+  Proof.
+    induction m as [|[k b] m IH]; intros H; [reflexivity|].
+    inversion H as [|? ? [Hk [[_ Hb] _]] Hm]; subst. cbn [check_map fst snd] in *.
+    assert (E : (255 <? k) = false) by (apply N.ltb_ge; assumption).
+    now rewrite E, Hb, IH.
+  Qed.
+
+  Lemma map_put_last : forall k v acc, (forall a, In a acc -> fst a < k) -> map_put k v acc = acc ++ [(k, v)].
+  Proof.
+    induction acc as [|[k' v'] acc IH]; intros H; [reflexivity|].
+    cbn [map_put app]. pose proof (H (k', v') (or_introl eq_refl)) as Hk. cbn [fst] in Hk.
+    assert (E1 : (k <? k') = false) by (apply N.ltb_ge; lia).
+    assert (E2 : (k =? k') = false) by (apply N.eqb_neq; lia).
+    rewrite E1, E2, IH; [reflexivity|]. intros a Ha. apply H. now right.
+  Qed.
+  Lemma map_of_sorted_acc : forall l acc,
+    (forall a e, In a acc -> In e l -> fst a < fst e) -> sorted_keys l ->
+    fold_left (fun m e => map_put (fst e) (snd e) m) l acc = acc ++ l.
+  Proof.
+    induction l as [|[k v] l IH]; intros acc H S; [now rewrite app_nil_r|].
+    cbn [fold_left fst snd]. destruct S as [S1 S2].
+    rewrite map_put_last.
+    - rewrite IH; [now rewrite <- app_assoc| |assumption].
+      intros a e Ha He. apply in_app_or in Ha. destruct Ha as [Ha|[<-|[]]].
+      + apply H; [assumption|now right].
+      + apply (S1 e He).
+    - intros a Ha. apply (H a (k, v) Ha). now left.
+  Qed.
+  Lemma map_of_sorted : forall m, sorted_keys m -> map_of m = m.
+  Proof. intros m S. unfold map_of. rewrite map_of_sorted_acc; [reflexivity| |assumption]. intros a e []. Qed.
+
+  Lemma map_entry_ok : forall e, fst e <= 255 -> small (snd e) -> small (entry_bytes e) ->
+    map_entry (entry_bytes e) = Some e.
+  Proof.
+    intros [k b] Hk Hb _. cbn [fst snd] in *. unfold map_entry, entry_bytes. cbn [fst snd].
+    rewrite tokenize_ser.
+    - unfold last_var, last_bytes, vars_of, bytes_of. cbn [flat_map fst snd app N.eqb Pos.eqb last].
+      rewrite N.mod_small by (unfold two32; lia). reflexivity.
+    - repeat constructor; cbn [fst snd]; unfold max_num_msg, two64 in *; try lia. exact Hb.
+  Qed.
+  Lemma map_entries_ok : forall c m,
+    Forall (fun e => fst e <= 255 /\ chk_ok c (snd e) /\ small (entry_bytes e)) m ->
+    map_entries (map entry_bytes m) = Some m.
+  Proof.
+    induction m as [|e m IH]; intros H; [reflexivity|].
+    inversion H as [|? ? [Hk [[Hs _] He]] Hm]; subst. cbn [map map_entries].
+    now rewrite map_entry_ok, IH.
+  Qed.
+
+  Lemma bytes_of_rep : forall k l, bytes_of k (map (fun b => (k, WBytes b)) l) = l.
+  Proof.
+    induction l as [|b l IH]; [reflexivity|]. unfold bytes_of in *. cbn [map flat_map fst snd].
+    now rewrite N.eqb_refl, IH.
+  Qed.
+  Lemma vars_of_rep : forall k (f : list N -> list N) l, vars_of k (map (fun b => (k, WBytes (f b))) l) = [].
+  Proof.
+    induction l as [|b l IH]; [reflexivity|]. unfold vars_of in *. cbn [map flat_map fst snd].
+    now rewrite N.eqb_refl, IH.
+  Qed.
+  Lemma bytes_of_map : forall k m,
+    bytes_of k (map (fun e => (k, WBytes (entry_bytes e))) m) = map entry_bytes m.
+  Proof.
+    induction m as [|e m IH]; [reflexivity|]. unfold bytes_of in *. cbn [map flat_map fst snd].
+    now rewrite N.eqb_refl, IH.
+  Qed.
+
+  (* a field decoded from its own encoding *)
+  Lemma own0 : forall k t v, 1 <= k <= max_num_msg -> wf_val0 t v ->
+    let ts := enc_field0 k t v in
+    Forall wf_tok ts /\ (forall tok, In tok ts -> fst tok = k) /\
+    pb_ok0 k t ts = true /\ glue0 parse k t ts = Some v.
+  Proof.
+    intros k t v Hk Hwf.
+    assert (Wv : forall n, n < two64 -> wf_tok (k, WVar n)) by (intros; split; assumption).
+    assert (Wb : forall b, small b -> wf_tok (k, WBytes b)) by (intros; split; assumption).
+    assert (Scal : forall n, n < two64 ->
+              let ts := (if n =? 0 then [] else [(k, WVar n)]) : list token in
+              Forall wf_tok ts /\ (forall tok, In tok ts -> fst tok = k) /\ last_var k ts = n).
+    { intros n Hn. destruct (n =? 0) eqn:E; cbn zeta.
+      - apply N.eqb_eq in E. subst. split; [constructor|split; [intros ? []|reflexivity]].
+      - split; [constructor; [apply Wv; assumption|constructor]|split; [intros ? [<-|[]]; reflexivity|]].
+        unfold last_var, vars_of. cbn [flat_map fst snd app]. now rewrite N.eqb_refl. }
+    assert (Byt : forall b, small b ->
+              let ts := enc_bytes_field k b in
+              Forall wf_tok ts /\ (forall tok, In tok ts -> fst tok = k) /\
+              bytes_of k ts = (match b with [] => [] | _ => [b] end) /\ last_bytes k ts = b).
+    { intros b Hb. destruct b as [|x b]; cbn zeta; unfold enc_bytes_field.
+      - split; [constructor|split; [intros ? []|split; reflexivity]].
+      - split; [constructor; [apply Wb; assumption|constructor]|split; [intros ? [<-|[]]; reflexivity|]].
+        unfold last_bytes, bytes_of; cbn [flat_map fst snd app]; rewrite N.eqb_refl. split; reflexivity. }
+    destruct t as [u| |c| | |c| |c]; [destruct u|..]; destruct v as [n|b|l|m]; try contradiction;
+      cbn [wf_val0] in Hwf; cbn zeta.
+    1-3: (assert (Hn : n < two32) by (unfold two32 in *; lia);
+          destruct (Scal n ltac:(unfold two32, two64 in *; lia)) as (S1 & S2 & S3);
+          cbn [enc_field0]; (split; [|split; [|split]]); try assumption; try reflexivity;
+          unfold glue0; rewrite S3; rewrite (N.mod_small n two32) by assumption).
+    - assert (E : (255 <? n) = false) by (apply N.ltb_ge; lia). now rewrite E.
+    - rewrite N.mod_small by lia. reflexivity.
+    - reflexivity.
+    - (* TU64 *)
+      destruct (Scal n Hwf) as (S1 & S2 & S3). cbn [enc_field0]. (split; [|split; [|split]]); try assumption; try reflexivity.
+      unfold glue0. now rewrite S3.
+    - (* TBytes *)
+      destruct Hwf as [Hs Hc]. destruct (Byt b Hs) as (S1 & S2 & S3 & S4).
+      cbn [enc_field0]. (split; [|split; [|split]]); try assumption; try reflexivity. unfold glue0. rewrite S4, Hc. reflexivity.
+    - (* TString *)
+      destruct Hwf as [Hs Hu]. destruct (Byt b Hs) as (S1 & S2 & S3 & S4).
+      cbn [enc_field0]. (split; [|split; [|split]]); try assumption; try reflexivity.
+      + unfold pb_ok0. rewrite S3. destruct b; [reflexivity|]. cbn [forallb]. now rewrite Hu.
+      + unfold glue0. now rewrite S4.
+    - (* TBig *)
+      destruct (Byt (be_bytes n) Hwf) as (S1 & S2 & S3 & S4).
+      cbn [enc_field0]. (split; [|split; [|split]]); try assumption; try reflexivity. unfold glue0. now rewrite S4, be_val_be_bytes.
+    - (* TRep *)
+      cbn [enc_field0]. split; [|split; [|split]]; try reflexivity.
+      + apply Forall_forall. intros tok Hin. apply in_map_iff in Hin. destruct Hin as (b & <- & Hb).
+        apply Wb. rewrite Forall_forall in Hwf. apply (Hwf b Hb).
+      + intros tok Hin. apply in_map_iff in Hin. destruct Hin as (b & <- & _). reflexivity.
+      + unfold glue0. rewrite bytes_of_rep, check_all_ok by assumption. reflexivity.
+    - (* TRepStr *)
+      cbn [enc_field0]. split; [|split; [|split]]; try reflexivity.
+      + apply Forall_forall. intros tok Hin. apply in_map_iff in Hin. destruct Hin as (b & <- & Hb).
+        apply Wb. rewrite Forall_forall in Hwf. apply (Hwf b Hb).
+      + intros tok Hin. apply in_map_iff in Hin. destruct Hin as (b & <- & _). reflexivity.
+      + unfold pb_ok0. rewrite bytes_of_rep. apply forallb_forall. intros b Hb.
+        rewrite Forall_forall in Hwf. apply (Hwf b Hb).
+      + unfold glue0. now rewrite bytes_of_rep.
+    - (* TMap *)
+      destruct Hwf as [Hs Hm]. cbn [enc_field0]. fold (entry_bytes).
+      change (map (fun e : N * list N => (k, WBytes (ser [(1, WVar (fst e)); (2, WBytes (snd e))]))) m)
+        with (map (fun e => (k, WBytes (entry_bytes e))) m).
+      split; [|split; [|split]].
+      + apply Forall_forall. intros tok Hin. apply in_map_iff in Hin. destruct Hin as (e & <- & He).
+        apply Wb. rewrite Forall_forall in Hm. apply (Hm e He).
+      + intros tok Hin. apply in_map_iff in Hin. destruct Hin as (e & <- & _). reflexivity.
+      + unfold pb_ok0. rewrite bytes_of_map, (map_entries_ok c) by assumption. reflexivity.
+      + unfold glue0. rewrite bytes_of_map, (map_entries_ok c) by assumption.
+        rewrite map_of_sorted by assumption. rewrite check_map_ok by assumption. reflexivity.
+  Qed.
+End WF.
+
+(* ------------------------------------------------------------------ messages *)
+Definition wf_fields {T} (fs : list (N * T)) : Prop :=
+  NoDup (map fst fs) /\ Forall (fun f => 1 <= fst f <= max_num_msg) fs.
+
+Lemma of_clean : forall k (ts : list token) (ks : list N),
+  (forall tok, In tok ts -> ~ In (fst tok) ks) -> In k ks ->
+  vars_of k ts = [] /\ bytes_of k ts = [].
+Proof. intros k ts ks H Hk. apply of_other. intros tok Hin E. apply (H tok Hin). now rewrite E. Qed.
+
+Section Messages.
+  Variable parse : N -> list N -> option (list N).
+
+  Lemma fields0_ok : forall fs vs,
+    Forall2 (fun f v => wf_val0 parse (snd f) v) fs vs -> wf_fields fs ->
+    forall pre post,
+    (forall tok, In tok pre -> ~ In (fst tok) (map fst fs)) ->
+    (forall tok, In tok post -> ~ In (fst tok) (map fst fs)) ->
+    Forall wf_tok (enc_fields0 fs vs) /\
+    (forall tok, In tok (enc_fields0 fs vs) -> In (fst tok) (map fst fs)) /\
+    pb_ok_fields0 fs (pre ++ enc_fields0 fs vs ++ post) = true /\
+    glue_fields0 parse fs (pre ++ enc_fields0 fs vs ++ post) = Some vs.
+  Proof.
+    induction 1 as [|[k t] v fs vs Hv Hrest IH]; intros [Hnd Hrng] pre post Hpre Hpost.
+    - cbn. repeat split; [constructor|intros ? []].
+    - cbn [map fst snd] in *. inversion Hnd as [|? ? Hnotin Hnd']; subst.
+      inversion Hrng as [|? ? Hk Hrng']; subst. cbn [fst] in Hk.
+      destruct (own0 parse k t v Hk Hv) as (W1 & F1 & P1 & G1).
+      set (e1 := enc_field0 k t v) in *.
+      specialize (IH (conj Hnd' Hrng') (pre ++ e1) post).
+      destruct IH as (W2 & F2 & P2 & G2).
+      { intros tok Hin Hbad. apply in_app_or in Hin. destruct Hin as [Hin|Hin].
+        - apply (Hpre tok Hin). now right.
+        - rewrite (F1 tok Hin) in Hbad. contradiction. }
+      { intros tok Hin Hbad. apply (Hpost tok Hin). now right. }
+      cbn [enc_fields0]. fold e1. set (e2 := enc_fields0 fs vs) in *.
+      assert (A : pre ++ (e1 ++ e2) ++ post = (pre ++ e1) ++ e2 ++ post) by (now rewrite <- !app_assoc).
+      assert (Ev : vars_of k (pre ++ (e1 ++ e2) ++ post) = vars_of k e1 /\
+                   bytes_of k (pre ++ (e1 ++ e2) ++ post) = bytes_of k e1).
+      { destruct (of_clean k pre (k :: map fst fs) Hpre (or_introl eq_refl)) as [a1 a2].
+        destruct (of_clean k post (k :: map fst fs) Hpost (or_introl eq_refl)) as [b1 b2].
+        destruct (of_other k e2) as [c1 c2].
+        { intros tok Hin E. apply Hnotin. rewrite <- E. apply F2, Hin. }
+        rewrite !vars_of_app, !bytes_of_app, a1, a2, b1, b2, c1, c2. cbn [app]. now rewrite !app_nil_r. }
+      destruct Ev as [Ev Eb].
+      destruct (glue0_ext parse k t _ _ Ev Eb) as [Eg Ep].
+      split; [apply Forall_app; split; assumption|].
+      split; [intros tok Hin; apply in_app_or in Hin; destruct Hin as [Hin|Hin];
+              [left; symmetry; apply F1, Hin|right; apply F2, Hin]|].
+      split.
+      + unfold pb_ok_fields0 in *. cbn [forallb fst snd]. rewrite Ep, P1, A. exact P2.
+      + cbn [glue_fields0]. rewrite Eg, G1, A, G2. reflexivity.
+  Qed.
+
+  Definition wf_val (t : ftype) (v : fval) : Prop :=
+    match t, v with
+    | F0 t0, V0 v0 => wf_val0 parse t0 v0
+    | TMsg sub _, VMsg vs =>
+        wf_fields sub /\ Forall2 (fun f v => wf_val0 parse (snd f) v) sub vs /\
+        small (ser (enc_fields0 sub vs))
+    | _, _ => False
+    end.
+
+  Lemma glue_ext : forall k t ts ts',
+    vars_of k ts = vars_of k ts' -> bytes_of k ts = bytes_of k ts' ->
+    glue parse k t ts = glue parse k t ts' /\ pb_ok k t ts = pb_ok k t ts'.
+  Proof.
+    intros k t ts ts' Hv Hb. destruct t as [t0|sub a].
+    - destruct (glue0_ext parse k t0 ts ts' Hv Hb) as [E1 E2]. unfold glue, pb_ok. now rewrite E1, E2.
+    - unfold glue, pb_ok. now rewrite Hb.
+  Qed.
+
+  Lemma own : forall k t v, 1 <= k <= max_num_msg -> wf_val t v ->
+    let ts := enc_field k t v in
+    Forall wf_tok ts /\ (forall tok, In tok ts -> fst tok = k) /\
+    pb_ok k t ts = true /\ glue parse k t ts = GOk v.
+  Proof.
+    intros k t v Hk Hwf. destruct t as [t0|sub a]; destruct v as [v0|vs]; try contradiction; cbn [wf_val] in Hwf.
+    - destruct (own0 parse k t0 v0 Hk Hwf) as (W & F & P & G). cbn zeta. cbn [enc_field].
+      split; [assumption|]. split; [assumption|]. split; [exact P|]. unfold glue. now rewrite G.
+    - destruct Hwf as (Hsub & Hvs & Hsmall). cbn zeta. cbn [enc_field].
+      destruct (fields0_ok sub vs Hvs Hsub [] []) as (W & _ & P & G); try (intros ? []).
+      cbn [app] in P, G. rewrite app_nil_r in P, G.
+      set (payload := ser (enc_fields0 sub vs)) in *.
+      assert (B : bytes_of k [(k, WBytes payload)] = [payload]).
+      { unfold bytes_of. cbn [flat_map fst snd app]. now rewrite N.eqb_refl. }
+      assert (T : sub_tokens [payload] = Some (enc_fields0 sub vs)).
+      { cbn [sub_tokens]. unfold payload. rewrite tokenize_ser by assumption. now rewrite app_nil_r. }
+      split; [constructor; [split; assumption|constructor]|].
+      split; [intros ? [<-|[]]; reflexivity|].
+      split.
+      + unfold pb_ok. rewrite B, T. exact P.
+      + unfold glue. rewrite B, T, G. reflexivity.
+  Qed.
+
+  Lemma fields_ok : forall sw fs vs,
+    Forall2 (fun f v => wf_val (snd f) v) fs vs -> wf_fields fs ->
+    forall pre post,
+    (forall tok, In tok pre -> ~ In (fst tok) (map fst fs)) ->
+    (forall tok, In tok post -> ~ In (fst tok) (map fst fs)) ->
+    Forall wf_tok (enc_fields fs vs) /\
+    (forall tok, In tok (enc_fields fs vs) -> In (fst tok) (map fst fs)) /\
+    forallb (fun f => pb_ok (fst f) (snd f) (pre ++ enc_fields fs vs ++ post)) fs = true /\
+    run_glue parse sw fs (pre ++ enc_fields fs vs ++ post) = Ok vs.
+  Proof.
+    intros sw. induction 1 as [|[k t] v fs vs Hv Hrest IH]; intros [Hnd Hrng] pre post Hpre Hpost.
+    - cbn. repeat split; [constructor|intros ? []].
+    - cbn [map fst snd] in *. inversion Hnd as [|? ? Hnotin Hnd']; subst.
+      inversion Hrng as [|? ? Hk Hrng']; subst. cbn [fst] in Hk.
+      destruct (own k t v Hk Hv) as (W1 & F1 & P1 & G1).
+      set (e1 := enc_field k t v) in *.
+      specialize (IH (conj Hnd' Hrng') (pre ++ e1) post).
+      destruct IH as (W2 & F2 & P2 & G2).
+      { intros tok Hin Hbad. apply in_app_or in Hin. destruct Hin as [Hin|Hin].
+        - apply (Hpre tok Hin). now right.
+        - rewrite (F1 tok Hin) in Hbad. contradiction. }
+      { intros tok Hin Hbad. apply (Hpost tok Hin). now right. }
+      cbn [enc_fields]. fold e1. set (e2 := enc_fields fs vs) in *.
+      assert (A : pre ++ (e1 ++ e2) ++ post = (pre ++ e1) ++ e2 ++ post) by (now rewrite <- !app_assoc).
+      assert (Ev : vars_of k (pre ++ (e1 ++ e2) ++ post) = vars_of k e1 /\
+                   bytes_of k (pre ++ (e1 ++ e2) ++ post) = bytes_of k e1).
+      { destruct (of_clean k pre (k :: map fst fs) Hpre (or_introl eq_refl)) as [a1 a2].
+        destruct (of_clean k post (k :: map fst fs) Hpost (or_introl eq_refl)) as [b1 b2].
+        destruct (of_other k e2) as [c1 c2].
+        { intros tok Hin E. apply Hnotin. rewrite <- E. apply F2, Hin. }
+        rewrite !vars_of_app, !bytes_of_app, a1, a2, b1, b2, c1, c2. cbn [app]. now rewrite !app_nil_r. }
+      destruct Ev as [Ev Eb].
+      destruct (glue_ext k t _ _ Ev Eb) as [Eg Ep].
+      split; [apply Forall_app; split; assumption|].
+      split; [intros tok Hin; apply in_app_or in Hin; destruct Hin as [Hin|Hin];
+              [left; symmetry; apply F1, Hin|right; apply F2, Hin]|].
+      split.
+      + cbn [forallb fst snd]. rewrite Ep, P1, A. exact P2.
+      + cbn [run_glue]. rewrite Eg, G1, A, G2. reflexivity.
+  Qed.
+
+  Definition wf_schema (s : mschema) : Prop := wf_fields (ms_fields s).
+  Definition wf_value (s : mschema) (v : list fval) : Prop :=
+    Forall2 (fun f x => wf_val (snd f) x) (ms_fields s) v.
+
+  Theorem roundtrip : forall s v, wf_schema s -> wf_value s v -> decode parse s (encode s v) = Ok v.
+  Proof.
+    intros s v Hs Hv. unfold decode, encode.
+    destruct (fields_ok (ms_swallow s) (ms_fields s) v Hv Hs [] []) as (W & _ & P & G); try (intros ? []).
+    cbn [app] in P, G. rewrite app_nil_r in P, G.
+    rewrite tokenize_ser by assumption. rewrite P. exact G.
+  Qed.
+
+  (* ---- totality *)
+  Definition no_panic_field (f : N * ftype) : bool :=
+    match snd f with TMsg _ APanic => false | _ => true end.
+  Lemma run_glue_total : forall sw fs ts,
+    forallb no_panic_field fs = true -> run_glue parse sw fs ts <> Panic.
+  Proof.
+    induction fs as [|[k t] fs IH]; intros ts H; [discriminate|].
+    cbn [forallb] in H. apply andb_prop in H. destruct H as [H1 H2].
+    cbn [run_glue]. destruct (glue parse k t ts) eqn:E.
+    - specialize (IH ts H2). destruct (run_glue parse sw fs ts); congruence.
+    - destruct (existsb (N.eqb k) sw); discriminate.
+    - exfalso. unfold glue in E. destruct t as [t0|sub a].
+      + destruct (glue0 parse k t0 ts); discriminate.
+      + unfold no_panic_field in H1. cbn [snd] in H1. destruct a; [discriminate|].
+        destruct (bytes_of k ts); [discriminate|].
+        destruct (sub_tokens (l :: l0)); [|discriminate].
+        destruct (glue_fields0 parse sub l1); discriminate.
+  Qed.
+  Theorem decode_total : forall s bytes,
+    forallb no_panic_field (ms_fields s) = true -> decode parse s bytes <> Panic.
+  Proof.
+    intros s bytes H. unfold decode. destruct (tokenize bytes) as [ts|]; [|discriminate].
+    destruct (forallb (fun f => pb_ok (fst f) (snd f) ts) (ms_fields s)); [|discriminate].
+    now apply run_glue_total.
+  Qed.
+End Messages.
+
+Lemma all_schemas_no_panic : forallb (fun s => forallb no_panic_field (ms_fields s)) all_schemas = true.
+Proof. reflexivity. Qed.
+
+(* ------------------------------------------------------------------ the listed schemas are well formed *)
+Fixpoint nodup_b (l : list N) : bool :=
+  match l with [] => true | x :: t => negb (existsb (N.eqb x) t) && nodup_b t end.
+Definition wf_fields_b {T} (fs : list (N * T)) : bool :=
+  nodup_b (map fst fs) && forallb (fun f => (1 <=? fst f) && (fst f <=? max_num_msg)) fs.
+Definition wf_schema_b (s : mschema) : bool :=
+  wf_fields_b (ms_fields s) &&
+  forallb (fun f => match snd f with TMsg sub _ => wf_fields_b sub | F0 _ => true end) (ms_fields s).
+
+Lemma nodup_b_ok : forall l, nodup_b l = true -> NoDup l.
+Proof.
+  induction l as [|x l IH]; intros H; [constructor|].
+  cbn [nodup_b] in H. apply andb_prop in H. destruct H as [H1 H2]. constructor; [|now apply IH].
+  intros Hin. apply negb_true_iff in H1.
+  assert (E : existsb (N.eqb x) l = true) by (apply existsb_exists; exists x; split; [assumption|apply N.eqb_refl]).
+  congruence.
+Qed.
+Lemma wf_fields_b_ok : forall T (fs : list (N * T)), wf_fields_b fs = true -> wf_fields fs.
+Proof.
+  intros T fs H. unfold wf_fields_b in H. apply andb_prop in H. destruct H as [H1 H2].
+  split; [now apply nodup_b_ok|]. apply Forall_forall. intros f Hf.
+  rewrite forallb_forall in H2. specialize (H2 f Hf). apply andb_prop in H2. destruct H2 as [A B].
+  apply N.leb_le in A. apply N.leb_le in B. split; assumption.
+Qed.
+Lemma all_schemas_wf : forallb wf_schema_b all_schemas = true.
+Proof. vm_compute. reflexivity. Qed.
+
+(* ------------------------------------------------------------------ the executable property *)
+Lemma spec_gen_sound : forall k o valid, spec_gen k o valid = true ->
+  o <> OPanic /\ (o = OOk -> valid = true) /\ (k = KRoundTrip -> o = OOk).
+Proof.
+  intros k o valid H. destruct o; destruct k; cbn in H; try discriminate;
+    (split; [discriminate|split; [intros; (assumption || discriminate)|intros; (reflexivity || discriminate)]]).
+Qed.
+
+Lemma model_passes_spec_any_bytes : forall parse s bytes,
+  forallb no_panic_field (ms_fields s) = true ->
+  spec_gen KCorrupt (class_of (decode parse s bytes)) true = true /\
+  spec_gen KRandom (class_of (decode parse s bytes)) true = true.
+Proof.
+  intros parse s bytes H. pose proof (decode_total parse s bytes H) as T.
+  destruct (decode parse s bytes); [split; reflexivity|split; reflexivity|congruence].
+Qed.
+
+Lemma model_passes_spec_roundtrip : forall parse s v,
+  wf_schema s -> wf_value parse s v ->
+  spec_gen KRoundTrip (class_of (decode parse s (encode s v))) true = true.
+Proof. intros parse s v Hs Hv. now rewrite roundtrip. Qed.
+
+(* ------------------------------------------------------------------ the hypotheses are satisfiable *)
+Example roundtrip_example :
+  let parse := (fun (_ : N) (b : list N) => Some b) in
+  let v := [V0 (VN 5); V0 (VM [(1, [2; 3]); (7, [9])]); V0 (VB [97; 195; 169])] in
+  wf_schema S_gjkr_EphemeralPublicKey /\ wf_value parse S_gjkr_EphemeralPublicKey v /\
+  decode parse S_gjkr_EphemeralPublicKey (encode S_gjkr_EphemeralPublicKey v) = Ok v.
+Proof.
+  intros parse v.
+  assert (Hs : wf_schema S_gjkr_EphemeralPublicKey) by (apply wf_fields_b_ok; reflexivity).
+  assert (Hv : wf_value parse S_gjkr_EphemeralPublicKey v).
+  { unfold wf_value, v. cbn [ms_fields S_gjkr_EphemeralPublicKey mk sender].
+    constructor; [|constructor; [|constructor; [|constructor]]]; unfold sender; cbn [snd wf_val wf_val0].
+    - lia.
+    - split.
+      + cbn. repeat split; try lia; intros e' [<-|[]]; cbn; lia.
+      + repeat constructor; cbn [fst snd]; try lia; unfold small; vm_compute; reflexivity.
+    - split; [unfold small; vm_compute; reflexivity|reflexivity]. }
+  split; [exact Hs|]. split; [exact Hv|]. now apply roundtrip.
+Qed.
+
+(* the swallowed error of the gjkr accusation decoders: an out-of-range accused member makes
+   Unmarshal return nil with only the sender set *)
+Example accusations_swallow_example :
+  decode (fun _ b => Some b) S_gjkr_Accusations
+         (ser [(1, WVar 7); (2, WBytes (ser [(1, WVar 300); (2, WBytes [1])])); (3, WBytes [115])])
+  = Ok [V0 (VN 7); V0 (VM []); V0 (VB [])].
+Proof. vm_compute. reflexivity. Qed.
+
+(* ------------------------------------------------------------------ the defect that was repaired *)
 Lemma signer_before_fix_panics :
   forall parse, decode parse S_tbtc_signer_before_fix [] = Panic.
 Proof. intros; reflexivity. Qed.
+
+(* ------------------------------------------------------------------ the modelled decoders *)
+Lemma in_all_schemas : forall s, In s all_schemas ->
+  forallb no_panic_field (ms_fields s) = true /\ wf_schema s.
+Proof.
+  intros s H. split.
+  - pose proof all_schemas_no_panic as A. rewrite forallb_forall in A. apply (A s H).
+  - pose proof all_schemas_wf as A. rewrite forallb_forall in A. specialize (A s H).
+    unfold wf_schema_b in A. apply andb_prop in A. destruct A as [A _]. now apply wf_fields_b_ok.
+Qed.
+Lemma modelled_decoders_total :
+  forall parse s bytes, In s all_schemas -> decode parse s bytes <> Panic.
+Proof. intros parse s bytes H. apply decode_total. apply (in_all_schemas s H). Qed.
+Lemma modelled_decoders_roundtrip :
+  forall parse s v, In s all_schemas -> wf_value parse s v -> decode parse s (encode s v) = Ok v.
+Proof. intros parse s v H Hv. apply roundtrip; [apply (in_all_schemas s H)|assumption]. Qed.
+Lemma model_outputs_pass_spec :
+  forall parse s, In s all_schemas ->
+    (forall bytes, spec_gen KCorrupt (class_of (decode parse s bytes)) true = true /\
+                   spec_gen KRandom (class_of (decode parse s bytes)) true = true) /\
+    (forall v, wf_value parse s v ->
+               spec_gen KRoundTrip (class_of (decode parse s (encode s v))) true = true).
+Proof.
+  intros parse s H. destruct (in_all_schemas s H) as [A B]. split.
+  - intros bytes. now apply model_passes_spec_any_bytes.
+  - intros v Hv. now apply model_passes_spec_roundtrip.
+Qed.
